@@ -191,8 +191,9 @@ def src(node, n=90):
 
 # --------------------------------------------------------------------------- constructor bodies
 class CtorWalker:
-    def __init__(self, mods, modname, params):
+    def __init__(self, mods, modname, params, kwarg_name=None):
         self.mods, self.modname = mods, modname
+        self.kwarg_name = kwarg_name
         self.params = set(params)
         self.env = {}          # local name -> expr
         self.out = []
@@ -253,7 +254,7 @@ class CtorWalker:
                 return
             if e["k"] == "derived":
                 # a computation on the arguments inside the constructor may reject them
-                self.out.append({"k": "raise", "src": "call in " + src(s.value, 60), "line": line})
+                self.out.append({"k": "raise", "explicit": False, "src": "computation " + src(s.value, 60), "line": line})
             for t in s.targets:
                 self.assign_target(t, e, cond, line)
             return
@@ -282,7 +283,7 @@ class CtorWalker:
                 self.out.append({"k": "other", "src": src(v), "line": line})
             return
         if isinstance(s, (ast.Raise, ast.Assert)):
-            self.out.append({"k": "raise", "src": src(s), "line": line})
+            self.out.append({"k": "raise", "explicit": True, "src": src(s), "line": line})
             return
         if isinstance(s, ast.If):
             if self._effect_in_expr(s.test, line):
@@ -337,7 +338,11 @@ class CtorWalker:
 
     def super_call(self, target, call, cond, line, skip_self):
         args = call.args[1:] if skip_self else call.args
-        star = any(isinstance(a, ast.Starred) for a in args) or any(k.arg is None for k in call.keywords)
+        # `**kwargs` of the constructor's own signature forwarded as is: its keys are by construction not
+        # parameters of this class nor explicitly passed keywords, so it cannot overwrite a stored parameter
+        star = any(isinstance(a, ast.Starred) for a in args) or any(
+            k.arg is None and not (isinstance(k.value, ast.Name) and k.value.id == self.kwarg_name)
+            for k in call.keywords)
         pos = [self.expr(a) for a in args if not isinstance(a, ast.Starred)]
         kw = [[k.arg, self.expr(k.value)] for k in call.keywords if k.arg is not None]
         self.out.append({"k": "super", "target": target, "pos": pos, "kw": kw, "star": star,
@@ -577,6 +582,18 @@ def c3(key, bases_of, memo):
 
 
 # --------------------------------------------------------------------------- extraction
+def external_names(dotted):
+    """attribute names a class outside the package provides (from the installed library; None = unknown).
+    Only used to decide whether a lookup that passes such a class in the MRO can stop there."""
+    import importlib
+    mod, _, cls = dotted.rpartition(".")
+    try:
+        c = getattr(importlib.import_module(mod), cls)
+        return sorted(n for n in dir(c))
+    except BaseException:
+        return None
+
+
 def _meta_attr(fn, helper):
     """`return self._get_params("steps", deep=deep)` / `self._set_params("steps", **kw)` -> "steps" """
     for n in ast.walk(fn):
@@ -641,7 +658,7 @@ def extract(root=None):
                     plist = [{"name": p, "default": d, "kwonly": False} for p, d in zip(params, has_def)]
                     for x, d in zip(a.kwonlyargs, a.kw_defaults):
                         plist.append({"name": x.arg, "default": d is not None, "kwonly": True})
-                    w = CtorWalker(mods, mn, [p["name"] for p in plist])
+                    w = CtorWalker(mods, mn, [p["name"] for p in plist], a.kwarg.arg if a.kwarg else None)
                     w.stmts(item.body, False)
                     body = w.out
                     for st in body:
@@ -679,6 +696,7 @@ def extract(root=None):
                               "class_attrs": [], "methods": {}, "get_params": None, "set_params": None,
                               "dynamic_attr_hooks": []}
                 classes[b]["ext_positional"] = EXTERNAL_POSITIONAL.get(b[4:], [])
+                classes[b]["ext_names"] = external_names(b[4:])
                 if b[4:] in EXTERNAL_META:
                     classes[b]["get_params"] = {"meta": EXTERNAL_META[b[4:]]}
                     classes[b]["set_params"] = {"meta": EXTERNAL_META[b[4:]]}
@@ -742,12 +760,17 @@ def to_lean(data, I=None, namespace="SkVerif.Gen"):
            "open SkVerif.Params", ""]
     cnt = [0]
     defs = []
-    for key, c in data["classes"].items():
+    ordered = [kv for kv in data["classes"].items() if not kv[1]["external"]] + \
+              [kv for kv in data["classes"].items() if kv[1]["external"]]
+    for key, c in ordered:
         ident = "c%d" % I(key)
         lines = ["/-- %s  (%s:%s) -/" % (key, c["file"], c["line"]),
                  "def %s : ClassEntry Nat := {" % ident,
                  "  name := %d, external := %s, extPositional := [%s]," % (
                      I(key), _b(c["external"]), ", ".join(str(I(x)) for x in c.get("ext_positional", []))),
+                 "  extKnown := %s, extNames := [%s]," % (
+                     _b(c.get("ext_names") is not None),
+                     ", ".join(str(I.ids[x]) for x in (c.get("ext_names") or []) if x in I.ids)),
                  "  mro := [%s]," % ", ".join(str(I(k)) for k in c["mro"])]
         if c["init"] is None:
             lines.append("  init := none,")
@@ -764,7 +787,7 @@ def to_lean(data, I=None, namespace="SkVerif.Gen"):
                     kw = "[%s]" % ", ".join("(%d, %s)" % (I(n), _lean_expr(e, I, cnt)) for n, e in st["kw"])
                     body.append(".superCall %s %s %s %s %s" % (tgt, pos, kw, _b(st["star"]), _b(st["cond"])))
                 elif st["k"] == "raise":
-                    body.append(".raiseIf")
+                    body.append(".raiseIf %s" % _b(st.get("explicit", True)))
                 elif st["k"] == "pure":
                     body.append(".pure")
                 else:
